@@ -192,9 +192,35 @@ impl Monitor {
                 if (token.is_canceled() || CANCELLED.load(Ordering::SeqCst)) && !s2.load(Ordering::SeqCst) {
                     let snap: Vec<u64> = stats.iter().map(|s| s.calls.load(Ordering::SeqCst)).collect();
                     let t1 = Instant::now();
+                    // wake-up counters of the block threads at the moment of cancellation
+                    let names0: Vec<String> = (0..stats.len()).filter(|&i| !stats[i].dropped.load(Ordering::SeqCst)).map(|i| stats[i].name.lock().unwrap().clone()).collect();
+                    let woke0: std::collections::HashMap<i32, u64> = tasks_named(&names0).into_iter().filter_map(|t| task_stat(t).map(|(_, v)| (t, v))).collect();
                     while !s2.load(Ordering::SeqCst) && t1.elapsed() < Duration::from_secs(20) {
                         std::thread::sleep(Duration::from_millis(20));
                         let live: Vec<usize> = (0..stats.len()).filter(|&i| !stats[i].dropped.load(Ordering::SeqCst)).collect();
+                        // A parked block thread notices the token when its (100 ms timed) wait
+                        // returns, i.e. after one or two wake-ups. A thread that has woken 40
+                        // times since cancel() while no block made a single further call is
+                        // looping inside a wait that never hands control back to the runner.
+                        // (Counted in the thread's own wake-ups, not in seconds.)
+                        let no_calls = live.iter().all(|&i| stats[i].calls.load(Ordering::SeqCst) == snap[i]);
+                        if no_calls && !live.is_empty() {
+                            let names: Vec<String> = live.iter().map(|&i| stats[i].name.lock().unwrap().clone()).collect();
+                            let late: Vec<(i32, u64)> = tasks_named(&names).into_iter().filter_map(|t| match (task_stat(t), woke0.get(&t)) {
+                                (Some((_, v)), Some(v0)) if v >= v0 + 40 => Some((t, v - v0)),
+                                _ => None,
+                            }).collect();
+                            if !late.is_empty() {
+                                if let Some((prop, case)) = FATAL_CTX.lock().unwrap().clone() {
+                                    fatal_violation(
+                                        &prop,
+                                        &format!("{prop}|parked-thread-ignores-cancel"),
+                                        &format!("cancel() was called but run() does not return: block threads (tid, wake-ups since cancel) {late:?} of {names:?} keep waking up inside a stream wait without returning to the runner, and no block has been called again; case {case}"),
+                                        case,
+                                    );
+                                }
+                            }
+                        }
                         let many = !live.is_empty() && live.iter().all(|&i| stats[i].calls.load(Ordering::SeqCst) >= snap[i] + 500);
                         if many {
                             if let Some((prop, case)) = FATAL_CTX.lock().unwrap().clone() {
@@ -297,6 +323,7 @@ pub fn run_graph(built: BuiltGraph, order: &[usize], mt: bool, delay_seed: u64, 
     let base_tasks = task_count();
     let stats: Vec<Arc<ProbeStats>> = built.blocks.iter().map(|b| b.1.clone()).collect();
     let sink = built.sink.clone();
+    let _application_side_stream_ends = built.keep; // alive until run() has returned
     let mut slots: Vec<Option<Box<dyn Block + Send>>> = built.blocks.into_iter().map(|b| Some(b.0)).collect();
     let mut mtg = MTGraph::new();
     let mut stg = Graph::new();
@@ -680,10 +707,14 @@ pub struct C07Case {
     pub pos: usize,
     pub chain: usize,
     pub infinite: bool,
+    /// A Tee behind the source whose second output is held by the harness and
+    /// never read (an application-side stream end): the graph backs up on it and
+    /// its threads are parked in waits that nothing inside the graph can end.
+    pub dangling: bool,
 }
 impl C07Case {
     fn to_json(&self) -> Value {
-        json!({"kind": self.kind, "mt": self.mt, "seed": self.seed.to_string(), "k": self.k, "pos": self.pos, "chain": self.chain, "infinite": self.infinite})
+        json!({"kind": self.kind, "mt": self.mt, "seed": self.seed.to_string(), "k": self.k, "pos": self.pos, "chain": self.chain, "infinite": self.infinite, "dangling": self.dangling})
     }
     fn from_json(v: &Value) -> Option<C07Case> {
         Some(C07Case {
@@ -694,6 +725,7 @@ impl C07Case {
             pos: v["pos"].as_u64()? as usize,
             chain: v["chain"].as_u64()? as usize,
             infinite: v["infinite"].as_bool()?,
+            dangling: v["dangling"].as_bool().unwrap_or(false),
         })
     }
 }
@@ -754,6 +786,13 @@ fn c07_build(c: &C07Case) -> BuiltGraph {
     let rep = if c.infinite { Repeat::infinite() } else { Repeat::finite(rng.range(1, 3) as u64) };
     let (s, mut w) = VectorSourceBuilder::new(data).repeat(rep).build();
     blocks.push(Probe::wrap(Box::new(s)));
+    let mut keep: Vec<Box<dyn std::any::Any + Send>> = Vec::new();
+    if c.dangling {
+        let (t, a, b) = Tee::new(w);
+        blocks.push(Probe::wrap(Box::new(t)));
+        w = a;
+        keep.push(Box::new(b));
+    }
     for i in 0..c.chain {
         if i == c.pos && (c.kind == "fail" || c.kind == "fail-then-cancel") {
             let (dst, r) = rustradio::stream::new_stream();
@@ -779,7 +818,7 @@ fn c07_build(c: &C07Case) -> BuiltGraph {
         blocks.insert(0, Probe::wrap(Box::new(s2)));
     }
     rec::stream_size(0);
-    BuiltGraph { blocks, sink: SinkHandle::U8(got) }
+    BuiltGraph { blocks, sink: SinkHandle::U8(got), keep }
 }
 
 fn c07_case(c: &C07Case, rep: &mut Report) -> Vec<(String, String)> {
@@ -874,7 +913,11 @@ fn c07_case(c: &C07Case, rep: &mut Report) -> Vec<(String, String)> {
     if !cancelled {
         // finite graph finished before the cancellation point: nothing to judge
         rep.count("cancel_not_reached", 1);
-        if o.stuck {
+        if o.stuck && c.dangling {
+            // backed up on the unread application-side stream before the scenario's
+            // cancellation point; the monitor's own cancel() ended it
+            rep.count("dangling_graph_backed_up_and_was_cancelled_by_the_monitor", 1);
+        } else if o.stuck {
             out.push((format!("{runner}|does-not-terminate"), format!("run() did not return (no cancellation involved); case {}", c.to_json())));
         }
         return out;
@@ -916,7 +959,7 @@ pub fn main(opts: &Opts, prop: &str) -> Report {
     rep.rule = match prop {
         "C05" => "generated graph programs (chains, tee/merge diamonds, merges with a second source of another length, rate changers, packet stages; CollectSink or a VectorSink watched by a second thread; finite VectorSource of 0..5 capacities; streams of 1,2,4,16 pages or default) run on MTGraph in seeded add orders with seeded PCT-style delays at yield hooks (incl. >100 ms sleeps so wait time-outs fire); termination decided by a logical stuck rule, sink compared with the harness's own sequential reference executor; distinct = (program, interleaving signature of the global produce/consume order)".into(),
         "C06" => "same generator on the single-threaded Graph (a quarter of the programs end in the library's VectorSink while a second thread keeps taking its Hook::data() guard for 20-400 us at a time); add orders forward, reverse and random; after run() returns Ok every block is called again through a hook accessor and no data may move (quiescence probe), then the sink is compared with the reference; early returns are classified by whether the deciding pass contained a data-moving call with a non-Again verdict; distinct = (program, add order)".into(),
-        _ => "chains of 1-5 blocks behind finite and infinite sources on both runners; cancellation before run() is entered, from an outside thread after a seeded delay, from the hook callback at the k-th yield event of whichever thread gets there, and from inside a block's work(); a failing block at every position failing on call k in {1,2,5,50}; distinct = (kind, runner, cancellation site or failure position, k)".into(),
+        _ => "chains of 1-5 blocks behind finite and infinite sources on both runners; cancellation before run() is entered, from an outside thread after a seeded delay, from the hook callback at the k-th yield event of whichever thread gets there, and from inside a block's work(); a third of the cancellation cases have a Tee whose second output is held, unread, by the harness (an application-side stream end the graph backs up on); a failing block at every position failing on call k in {1,2,5,50}; distinct = (kind, runner, cancellation site or failure position, k)".into(),
     };
     rep.assume("blocks in generated graphs are deterministic functions of stream state and peer liveness; stuck = no data event and no block exit while every live block was called N more times");
     crate::rec::install(true);
@@ -1008,7 +1051,7 @@ pub fn main(opts: &Opts, prop: &str) -> Report {
                     pos: rng.below(chain),
                     chain,
                     infinite: rng.chance(2, 3) || kind != "fail",
-
+                    dangling: kind.starts_with("cancel-") && kind != "cancel-inside" && rng.chance(1, 3),
                 };
                 rep.eval();
                 rep.distinct(fnv_str(&format!("{}|{}|{}|{}|{}", c.kind, c.mt, c.pos, c.chain, c.k)));
